@@ -274,10 +274,12 @@ def reRead (src : Bytes) : Option Bytes × Bytes :=
         match s with
         | [] => (acc, [])
         | c :: r =>
-          if c == delim then (acc, r)
+          -- `*s != delim`: `delim` was read as `unsigned char`, `*s` is a (signed) `char`: a byte of
+          -- 0x80 and above never equals it
+          if c == delim && delim < 128 then (acc, r)
           else if c == 92 && !r.isEmpty then
             let d := r.headD 0
-            go f (r.drop 1) (if d != delim then acc ++ [92, d] else acc ++ [d])
+            go f (r.drop 1) (if !(d == delim && delim < 128) then acc ++ [92, d] else acc ++ [d])
           else go f r (acc ++ [c])
     let (pat, rest) := go (s.length + 1) s []
     (some pat, rest)
